@@ -94,8 +94,19 @@ func c05r1(c *Ctx, id string) {
 				}
 			}
 			construct := fname(pw) + "@" + fname(cs.Fn)
+			cl := classifyWriterCall(w, cs)
 			if cst, ok := dirtyArg.(*ssa.Const); ok && cst.Value != nil && cst.Value.ExactString() == "false" {
-				c.OKTrivial(id, construct, cs.Call.Pos(), "dirty=false: nothing to persist")
+				// only the absorption of a library-internal key may settle without flagging (C14); an acknowledgement or a
+				// non-document stream event that moves the position must be persisted by the next save
+				if cl.kind == "absorb-metadata" {
+					c.OKTrivial(id, construct, cs.Call.Pos(), "library-internal key absorbed with dirty=false: nothing to persist (C14)")
+				} else {
+					c.Fail(id, construct, cs.Call.Pos(), "%s moves the position with dirty=false: a vBucket advanced only this way is skipped by every save, including the final one", cl.kind+" ("+cl.why+")")
+				}
+				continue
+			}
+			if _, isConst := dirtyArg.(*ssa.Const); !isConst && cl.kind != "" {
+				c.Fail(id, construct, cs.Call.Pos(), "dirty flag of a %s is not the constant true: %s", cl.kind, w.Origin(dirtyArg))
 				continue
 			}
 			if raisedInWriter {
@@ -214,6 +225,8 @@ func c05r3(c *Ctx, id string) {
 		if sd == nil {
 			continue
 		}
+		// the state handed to the backend covers every tracked vBucket (whole-state backends replace what they stored)
+		dumpAll(c, id, fn, sd)
 		// guards of the write
 		var gs []string
 		for _, g := range guardsOf(sd.invoke.Block()) {
